@@ -40,6 +40,22 @@ fn class_cfg() -> ClassCfg {
             ('\u{10FFF0}', '\u{10FFFF}'),
             ('é', 'é'),
             ('\u{3B1}', '\u{3C9}'),
+            // end points that have to be, or may be, written as single-character escapes
+            ('\t', '\n'),
+            ('\n', '\r'),
+            ('\u{0}', '\n'),
+            ('[', ']'),
+            ('X', ']'),
+            ('\\', '^'),
+            ('Z', '^'),
+            ('+', '-'),
+            ('-', '/'),
+            ('*', '.'),
+            ('+', '.'),
+            ('$', ')'),
+            ('(', '?'),
+            ('z', '|'),
+            ('{', '}'),
         ],
     }
 }
